@@ -252,7 +252,7 @@ def project_record_compiled(rec, cfg, rngidx):
     return out
 
 
-def project_run(static_trace, cfg, gs0, history, log_entries, gs_final, rngidx, tid, rec=None, ref=None, h0=None):
+def project_run(static_trace, cfg, gs0, history, log_entries, gs_final, rngidx, tid, rec=None, ref=None, h0=None, train=None):
     """RexRun trace of one call history executed from graph state gs0 (episode = static_trace's episode)."""
     kinds = {}
     for n in cfg["nodes"]:
@@ -267,4 +267,6 @@ def project_run(static_trace, cfg, gs0, history, log_entries, gs_final, rngidx, 
         t["rec"] = rec
     if ref is not None:
         t["ref"] = ref
+    if train:
+        t["train"] = train
     return t
